@@ -6,6 +6,8 @@ pub mod ply;
 pub mod serialize;
 pub mod square;
 pub mod transposition_table;
+#[cfg(rce_verif)]
+pub mod verif;
 pub mod zkey;
 
 use bitboard::Bitboard;
